@@ -425,3 +425,770 @@ theorem matchByLine_fast {cfg : Config} {m : MatcherI} (σ : Script) (buf : Byte
       | ok b => cases b <;> rfl
 
 end RgVerif.Searcher
+
+namespace RgVerif.Searcher
+open RgVerif RgVerif.Matcher RgVerif.Lines RgVerif.GrepSpec
+
+/-- the slow loop over at least one line does not read the position it starts with -/
+theorem slowLoop_init_pos (cfg : Config) (m : MatcherI) (σ : Script) (buf : Bytes) (sp : Span) (rest : List Span)
+    (st : Core) (p : Nat) :
+    slowLoop cfg m σ buf (sp :: rest) { st with pos := p } = slowLoop cfg m σ buf (sp :: rest) st := by
+  simp only [slowLoop]
+
+theorem withPH_eq_of {a b : Core} (h : a.withPH 0 false = b.withPH 0 false) (hp : a.pos = b.pos)
+    (hh : a.hasMatched = b.hasMatched) : a = b := by
+  have := withPH_inj h
+  rw [this, hp, hh]
+  rfl
+
+end RgVerif.Searcher
+
+namespace RgVerif.Searcher
+open RgVerif RgVerif.Matcher RgVerif.Lines RgVerif.GrepSpec
+
+theorem goodLines_right {t : Nat} : ∀ {a b : List Bytes}, GoodLines t (a ++ b) → GoodLines t b := by
+  intro a
+  induction a with
+  | nil => intro b h; exact h
+  | cons x xs ih => intro b h; exact ih (goodLines_tail h)
+
+theorem goodLines_left_allTerm {t : Nat} : ∀ {a b : List Bytes}, GoodLines t (a ++ b) → b ≠ [] → AllTerm t a := by
+  intro a
+  induction a with
+  | nil => intro b _ _ l hl; simp at hl
+  | cons x xs ih =>
+    intro b h hb l hl
+    simp only [List.mem_cons] at hl
+    cases hl with
+    | inl e => rw [e]; exact goodLines_head_term h (by simp [hb])
+    | inr e => exact ih (goodLines_tail h) hb l e
+
+theorem goodLines_left {t : Nat} {a b : List Bytes} (h : GoodLines t (a ++ b)) : GoodLines t a := by
+  by_cases hb : b = []
+  · subst hb; simpa using h
+  · exact (goodLines_left_allTerm h hb).good
+
+theorem withPH_fields {a b : Core} (h : a.withPH 0 false = b.withPH 0 false) :
+    a.lastLineVisited = b.lastLineVisited ∧ a.afterContextLeft = b.afterContextLeft ∧ a.events = b.events ∧
+    a.binaryByteOffset = b.binaryByteOffset :=
+  ⟨by have := congrArg Core.lastLineVisited h; exact this, by have := congrArg Core.afterContextLeft h; exact this,
+    by have := congrArg Core.events h; exact this, by have := congrArg Core.binaryByteOffset h; exact this⟩
+
+/-- what one delivery of the fast path does: `after_context_by_line`, `before_context_by_line`, then a
+run of selected lines -/
+def beforeThenRun (cfg : Config) (σ : Script) (buf : Bytes) (o : Nat) (sps : List Span) (st : Core) : Core × Res Bool :=
+  match beforeContextByLine cfg σ buf st o with
+  | (st, .ok true) => matchedLoop cfg σ buf sps st
+  | (st, r) => (st, r)
+
+def deliverRun (cfg : Config) (σ : Script) (buf : Bytes) (o : Nat) (sps : List Span) (st : Core) : Core × Res Bool :=
+  match afterContextByLine cfg σ buf st o with
+  | (st, .ok true) => beforeThenRun cfg σ buf o sps st
+  | (st, r) => (st, r)
+
+theorem beforeThenRun_ph {cfg : Config} (hbin : cfg.binary = .none) (σ : Script) (buf : Bytes) (o : Nat)
+    (sps : List Span) : FramesPH (beforeThenRun cfg σ buf o sps) :=
+  FramesPH.bind (beforeContextByLine_ph hbin σ buf o) (matchedLoop_ph hbin σ buf sps)
+
+theorem beforeThenRun_noStop {cfg : Config} (hbin : cfg.binary = .none) (σ : Script) (buf : Bytes) (o : Nat)
+    (sps : List Span) (st : Core) : NoStopRes σ (beforeThenRun cfg σ buf o sps st) :=
+  NoStopRes.bind _ _ (beforeContextByLine_noStop hbin σ buf st o) (matchedLoop_noStop hbin σ buf sps)
+
+theorem noStop_err (σ : Script) (s : Core) : NoStopRes σ (s, .err) := by intro h; cases h
+
+/-- **one delivery of the fast path** against the slow loop over the pending unselected lines and the run -/
+theorem deliver_run {cfg : Config} (hbin : cfg.binary = .none) (hpt : cfg.passthru = false) (m : MatcherI)
+    (σ : Script) (buf : Bytes) (pre : Bytes) (pend : List Bytes) (l : Bytes) (run : List Bytes) (F : Core) (P o : Nat)
+    (ho : o = pre.length + pend.flatten.length)
+    (htake : buf.take (pre.length + (pend ++ l :: run).flatten.length) = pre ++ (pend ++ l :: run).flatten)
+    (hgp : AllTerm cfg.lineTerm.asByte pend)
+    (hpend : ∀ x ∈ pend, succL cfg m x = false) (hsel : ∀ x ∈ l :: run, succL cfg m x = true)
+    (hJ : 0 < F.afterContextLeft → F.lastLineVisited = pre.length)
+    (hSC : pend ≠ [] → cfg.stopOnNonmatch = false ∨ F.hasMatched = false) :
+    (deliverRun cfg σ buf o (spansFrom o (l :: run)) (F.withPH P true)).2
+        = (slowLoop cfg m σ buf (spansFrom pre.length (pend ++ l :: run)) F).2 ∧
+      (deliverRun cfg σ buf o (spansFrom o (l :: run)) (F.withPH P true)).1.withPH 0 false
+        = (slowLoop cfg m σ buf (spansFrom pre.length (pend ++ l :: run)) F).1.withPH 0 false ∧
+      NoStopRes σ (deliverRun cfg σ buf o (spansFrom o (l :: run)) (F.withPH P true)) ∧
+      ((deliverRun cfg σ buf o (spansFrom o (l :: run)) (F.withPH P true)).2 = .ok true →
+        (deliverRun cfg σ buf o (spansFrom o (l :: run)) (F.withPH P true)).1.pos = P ∧
+        (deliverRun cfg σ buf o (spansFrom o (l :: run)) (F.withPH P true)).1.hasMatched = true ∧
+        (deliverRun cfg σ buf o (spansFrom o (l :: run)) (F.withPH P true)).1.lastLineVisited
+          = o + (l :: run).flatten.length ∧
+        (deliverRun cfg σ buf o (spansFrom o (l :: run)) (F.withPH P true)).1.afterContextLeft = cfg.afterContext ∧
+        (slowLoop cfg m σ buf (spansFrom pre.length (pend ++ l :: run)) F).1.pos = o + (l :: run).flatten.length ∧
+        (slowLoop cfg m σ buf (spansFrom pre.length (pend ++ l :: run)) F).1.hasMatched = true) := by
+  have htakeR : buf.take ((pre ++ pend.flatten).length + (l :: run).flatten.length)
+      = (pre ++ pend.flatten) ++ (l :: run).flatten := by
+    simpa [Nat.add_assoc] using htake
+  have hl : (pre ++ pend.flatten).length = o := by rw [ho]; simp
+  have htakeP : buf.take (pre.length + pend.flatten.length) = pre ++ pend.flatten := by
+    have hl' : (pre ++ pend.flatten).length = pre.length + pend.flatten.length := by simp
+    have := congrArg (List.take (pre ++ pend.flatten).length) htakeR
+    rw [List.take_take, Nat.min_eq_left (Nat.le_add_right _ _), take_len_app] at this
+    rw [← hl']; exact this
+  -- the slow loop over the pending lines
+  obtain ⟨a1, a2, a3⟩ := slow_nonsel hbin hpt m σ buf pend pre F htakeP hgp.good hpend hJ hSC
+  rw [← ho] at a1 a2 a3
+  -- split the slow loop
+  have hYs := slowLoop_append cfg m σ buf (spansFrom pre.length pend) (spansFrom o (l :: run)) F
+  rw [show spansFrom pre.length pend ++ spansFrom o (l :: run) = spansFrom pre.length (pend ++ l :: run) by
+    rw [spansFrom_append, ← ho]] at hYs
+  rw [hYs]
+  unfold deliverRun
+  -- frames
+  have hfrA : afterContextByLine cfg σ buf (F.withPH P true) o
+      = ((afterContextByLine cfg σ buf F o).1.withPH P true, (afterContextByLine cfg σ buf F o).2) :=
+    afterContextByLine_ph hbin σ buf o F P true
+  have hnsA := afterContextByLine_noStop hbin σ buf F o
+  rw [hfrA]
+  generalize afterContextByLine cfg σ buf F o = A at a1 a2 a3 hnsA ⊢
+  generalize slowLoop cfg m σ buf (spansFrom pre.length pend) F = S at a1 a2 a3 ⊢
+  obtain ⟨a, ra⟩ := A
+  obtain ⟨s, rs⟩ := S
+  dsimp only at a1 a2 a3
+  subst a1
+  cases rs with
+  | err => exact ⟨rfl, a2.symm, noStop_err σ _, fun h => by cases h⟩
+  | ok b =>
+    cases b with
+    | false => exact ⟨rfl, a2.symm, hnsA, fun h => by cases h⟩
+    | true =>
+      dsimp only
+      -- the slow state is the fast one up to position and `has_matched`
+      have hs : s = a.withPH s.pos s.hasMatched := withPH_inj a2
+      -- the run
+      have hsr := slow_selrun hbin m σ buf l run (pre ++ pend.flatten) s htakeR hsel
+      rw [hl] at hsr
+      have b1 : (slowLoop cfg m σ buf (spansFrom o (l :: run)) s).2
+          = (beforeThenRun cfg σ buf o (spansFrom o (l :: run)) s).2 := hsr.1
+      have b2 : (slowLoop cfg m σ buf (spansFrom o (l :: run)) s).1.withPH 0 false
+          = (beforeThenRun cfg σ buf o (spansFrom o (l :: run)) s).1.withPH 0 false := hsr.2.1
+      have b3 := hsr.2.2
+      have hc1 := beforeThenRun_ph hbin σ buf o (spansFrom o (l :: run)) a P true
+      have hc2 := beforeThenRun_ph hbin σ buf o (spansFrom o (l :: run)) a s.pos s.hasMatched
+      rw [← hs] at hc2
+      rw [hc1]
+      rw [hc2] at b1 b2
+      have hnsB := beforeThenRun_noStop hbin σ buf o (spansFrom o (l :: run)) a
+      generalize beforeThenRun cfg σ buf o (spansFrom o (l :: run)) a = B at b1 b2 hnsB ⊢
+      refine ⟨b1.symm, by rw [b2]; rfl, hnsB, fun hok => ?_⟩
+      have hok' : (slowLoop cfg m σ buf (spansFrom o (l :: run)) s).2 = .ok true := by rw [b1]; exact hok
+      obtain ⟨c1, c2, c3, c4⟩ := b3 hok'
+      obtain ⟨f1, f2, _, _⟩ := withPH_fields b2
+      refine ⟨rfl, rfl, ?_, ?_, c1, c2⟩
+      · have : (B.1.withPH s.pos s.hasMatched).lastLineVisited = B.1.lastLineVisited := rfl
+        show B.1.lastLineVisited = _
+        rw [← this, ← f1]; exact c3
+      · have : (B.1.withPH s.pos s.hasMatched).afterContextLeft = B.1.afterContextLeft := rfl
+        show B.1.afterContextLeft = _
+        rw [← this, ← f2]; exact c4
+
+end RgVerif.Searcher
+
+namespace RgVerif.Searcher
+open RgVerif RgVerif.Matcher RgVerif.Lines RgVerif.GrepSpec
+
+theorem deliverRun_ph {cfg : Config} (hbin : cfg.binary = .none) (σ : Script) (buf : Bytes) (o : Nat)
+    (sps : List Span) : FramesPH (deliverRun cfg σ buf o sps) :=
+  FramesPH.bind (afterContextByLine_ph hbin σ buf o) (beforeThenRun_ph hbin σ buf o sps)
+
+/-- what the fast loop does with the result of one iteration -/
+def fastK (cfg : Config) (m : MatcherI) (σ : Script) (buf : Bytes) (fuel : Nat) (R : Core × Res Bool) :
+    Core × Res (Option FastMatchResult) :=
+  match R with
+  | (st, .err) => (st, .err)
+  | (st, .ok false) => (st, .ok (some .stop))
+  | (st, .ok true) => fastLoop cfg m σ buf fuel st
+
+/-- what the slow loop does after a first part of its lines -/
+def slowK (cfg : Config) (m : MatcherI) (σ : Script) (buf : Bytes) (rest : List Span) (Ys : Core × Res Bool) :
+    Core × Res Bool :=
+  match Ys with
+  | (st', .ok true) => slowLoop cfg m σ buf rest st'
+  | r => r
+
+theorem slowLoop_append' (cfg : Config) (m : MatcherI) (σ : Script) (buf : Bytes) (xs ys : List Span) (st : Core) :
+    slowLoop cfg m σ buf (xs ++ ys) st = slowK cfg m σ buf ys (slowLoop cfg m σ buf xs st) :=
+  slowLoop_append cfg m σ buf xs ys st
+
+/-- the relation between a fast-path result and a slow-path result -/
+def FS (σ : Script) (X Y : Core × Res Bool) : Prop :=
+  X.2 = Y.2 ∧ X.1.withPH 0 false = Y.1.withPH 0 false ∧ ((∀ i, σ i ≠ .stop) → X.2 ≠ .err → X.1 = Y.1) ∧
+    (X.2 = .ok true → X.1 = Y.1)
+
+theorem fast_cont {cfg : Config} (m : MatcherI) (σ : Script) (buf : Bytes) (fuel : Nat) (R Ys : Core × Res Bool)
+    (rest : List Span) (h2 : R.2 = Ys.2) (hw : R.1.withPH 0 false = Ys.1.withPH 0 false) (hns : NoStopRes σ R)
+    (hih : R.2 = .ok true → FS σ (fastTail cfg m σ buf (fastLoop cfg m σ buf fuel R.1))
+      (slowLoop cfg m σ buf rest Ys.1)) :
+    FS σ (fastTail cfg m σ buf (fastK cfg m σ buf fuel R)) (slowK cfg m σ buf rest Ys) := by
+  obtain ⟨r1, rr⟩ := R
+  obtain ⟨y1, yr⟩ := Ys
+  dsimp only at h2 hw hih
+  subst h2
+  cases rr with
+  | err => exact ⟨rfl, hw, fun _ h => absurd rfl h, fun h => by cases h⟩
+  | ok b =>
+    cases b with
+    | false =>
+      refine ⟨rfl, hw, fun hs _ => ?_, fun h => by cases h⟩
+      obtain ⟨i, hi⟩ := hns rfl
+      exact absurd hi (hs i)
+    | true => exact hih rfl
+
+end RgVerif.Searcher
+
+namespace RgVerif.Searcher
+open RgVerif RgVerif.Matcher RgVerif.Lines RgVerif.GrepSpec
+
+theorem slowK_nil (cfg : Config) (m : MatcherI) (σ : Script) (buf : Bytes) (Ys : Core × Res Bool) :
+    slowK cfg m σ buf [] Ys = Ys := by
+  obtain ⟨s, r⟩ := Ys
+  cases r with
+  | err => rfl
+  | ok b => cases b <;> rfl
+
+theorem slowLoop_init_pos' (cfg : Config) (m : MatcherI) (σ : Script) (buf : Bytes) (o : Nat) (ls : List Bytes)
+    (hne : ls ≠ []) (st : Core) (p : Nat) :
+    slowLoop cfg m σ buf (spansFrom o ls) { st with pos := p } = slowLoop cfg m σ buf (spansFrom o ls) st := by
+  cases ls with
+  | nil => exact absurd rfl hne
+  | cons l ls => simp only [spansFrom]; exact slowLoop_init_pos cfg m σ buf _ _ st p
+
+/-- the end of `match_by_line_fast` when no selected line is left: the trailing after-context -/
+theorem fast_tail_nonsel {cfg : Config} (hbin : cfg.binary = .none) (hpt : cfg.passthru = false) (m : MatcherI)
+    (σ : Script) (buf pre : Bytes) (nl : List Bytes) (F : Core) (hbuf : buf = pre ++ nl.flatten)
+    (hg : GoodLines cfg.lineTerm.asByte nl) (hnl : ∀ l ∈ nl, succL cfg m l = false)
+    (hJ : 0 < F.afterContextLeft → F.lastLineVisited = pre.length)
+    (hSC : nl ≠ [] → cfg.stopOnNonmatch = false ∨ F.hasMatched = false)
+    (hposF : nl = [] → F.pos = buf.length) :
+    FS σ (fastTail cfg m σ buf (F, .ok none)) (slowLoop cfg m σ buf (spansFrom pre.length nl) F) := by
+  have hlen : buf.length = pre.length + nl.flatten.length := by rw [hbuf]; simp
+  have htake : buf.take (pre.length + nl.flatten.length) = pre ++ nl.flatten := by
+    rw [hbuf, ← List.length_append, List.take_length]
+  obtain ⟨a1, a2, a3⟩ := slow_nonsel hbin hpt m σ buf nl pre F htake hg hnl hJ hSC
+  rw [← hlen] at a1 a2 a3
+  have hnsA := afterContextByLine_noStop hbin σ buf F buf.length
+  have hphA : (afterContextByLine cfg σ buf F buf.length).1.pos = F.pos ∧
+      (afterContextByLine cfg σ buf F buf.length).1.hasMatched = F.hasMatched :=
+    (afterContextByLine_ph hbin σ buf buf.length).pos F
+  simp only [fastTail]
+  generalize afterContextByLine cfg σ buf F buf.length = A at a1 a2 a3 hnsA hphA ⊢
+  generalize slowLoop cfg m σ buf (spansFrom pre.length nl) F = S at a1 a2 a3 ⊢
+  obtain ⟨a, ra⟩ := A
+  obtain ⟨s, rs⟩ := S
+  dsimp only at a1 a2 a3 hphA
+  subst a1
+  cases rs with
+  | err => exact ⟨rfl, a2.symm, fun _ h => absurd rfl h, fun h => by cases h⟩
+  | ok b =>
+    cases b with
+    | false =>
+      refine ⟨rfl, a2.symm, fun hs _ => ?_, fun h => by cases h⟩
+      obtain ⟨i, hi⟩ := hnsA rfl
+      exact absurd hi (hs i)
+    | true =>
+      obtain ⟨p1, p2⟩ := a3 rfl
+      suffices heq : ({ a with pos := buf.length } : Core) = s from
+        ⟨rfl, by rw [a2]; rfl, fun _ _ => heq, fun _ => heq⟩
+      apply withPH_eq_of (by rw [a2]; rfl)
+      · show buf.length = s.pos
+        rw [p1]
+        split
+        · rename_i h0; exact (hposF h0).symm
+        · rfl
+      · show a.hasMatched = s.hasMatched
+        rw [p2, hphA.2]
+
+/-- the body of a non-inverted iteration of the fast loop, as one delivery -/
+theorem noninv_step {cfg : Config} (hbin : cfg.binary = .none) (σ : Script) (buf : Bytes) (G : Core) (s e : Nat)
+    (hG : G.hasMatched = true) (h0 : cfg.maxContext = 0 → G.afterContextLeft = 0) :
+    ((match (if cfg.maxContext > 0 then
+            (match afterContextByLine cfg σ buf G s with
+              | (st, .ok true) => beforeContextByLine cfg σ buf st s
+              | (st, r) => (st, r))
+          else (G, .ok true)) with
+        | (st, .ok true) => sinkMatched cfg σ buf { st with pos := e } ⟨s, e⟩
+        | (st, r) => (st, r)).2 = (deliverRun cfg σ buf s [⟨s, e⟩] (G.withPH e true)).2) ∧
+    ((match (if cfg.maxContext > 0 then
+            (match afterContextByLine cfg σ buf G s with
+              | (st, .ok true) => beforeContextByLine cfg σ buf st s
+              | (st, r) => (st, r))
+          else (G, .ok true)) with
+        | (st, .ok true) => sinkMatched cfg σ buf { st with pos := e } ⟨s, e⟩
+        | (st, r) => (st, r)).1.withPH 0 false = (deliverRun cfg σ buf s [⟨s, e⟩] (G.withPH e true)).1.withPH 0 false) ∧
+    ((match (if cfg.maxContext > 0 then
+            (match afterContextByLine cfg σ buf G s with
+              | (st, .ok true) => beforeContextByLine cfg σ buf st s
+              | (st, r) => (st, r))
+          else (G, .ok true)) with
+        | (st, .ok true) => sinkMatched cfg σ buf { st with pos := e } ⟨s, e⟩
+        | (st, r) => (st, r)).2 = .ok true →
+      (match (if cfg.maxContext > 0 then
+            (match afterContextByLine cfg σ buf G s with
+              | (st, .ok true) => beforeContextByLine cfg σ buf st s
+              | (st, r) => (st, r))
+          else (G, .ok true)) with
+        | (st, .ok true) => sinkMatched cfg σ buf { st with pos := e } ⟨s, e⟩
+        | (st, r) => (st, r)).1 = (deliverRun cfg σ buf s [⟨s, e⟩] (G.withPH e true)).1) := by
+  -- the context part, in one form for both branches
+  have hctx : (if cfg.maxContext > 0 then
+        (match afterContextByLine cfg σ buf G s with
+          | (st, .ok true) => beforeContextByLine cfg σ buf st s
+          | (st, r) => (st, r))
+      else (G, .ok true))
+      = (match afterContextByLine cfg σ buf G s with
+          | (st, .ok true) => beforeContextByLine cfg σ buf st s
+          | (st, r) => (st, r)) := by
+    split
+    · rfl
+    · rename_i hmc
+      have hmc0 : cfg.maxContext = 0 := by omega
+      have ha : G.afterContextLeft = 0 := h0 hmc0
+      have hb : cfg.beforeContext = 0 := by unfold Config.maxContext at hmc0; omega
+      simp [afterContextByLine, beforeContextByLine, ha, hb]
+  rw [hctx]
+  have hfrD : deliverRun cfg σ buf s [⟨s, e⟩] (G.withPH e true)
+      = ((deliverRun cfg σ buf s [⟨s, e⟩] G).1.withPH e true, (deliverRun cfg σ buf s [⟨s, e⟩] G).2) :=
+    deliverRun_ph hbin σ buf s [⟨s, e⟩] G e true
+  rw [hfrD]
+  unfold deliverRun beforeThenRun
+  have hpa : (afterContextByLine cfg σ buf G s).1.hasMatched = G.hasMatched :=
+    ((afterContextByLine_ph hbin σ buf s).pos G).2
+  generalize afterContextByLine cfg σ buf G s = A at hpa ⊢
+  obtain ⟨a, ra⟩ := A
+  cases ra with
+  | err => exact ⟨rfl, rfl, fun h => by cases h⟩
+  | ok ba =>
+    cases ba with
+    | false => exact ⟨rfl, rfl, fun h => by cases h⟩
+    | true =>
+      dsimp only at hpa ⊢
+      have hpb : (beforeContextByLine cfg σ buf a s).1.hasMatched = a.hasMatched :=
+        ((beforeContextByLine_ph hbin σ buf s).pos a).2
+      generalize beforeContextByLine cfg σ buf a s = B at hpb ⊢
+      obtain ⟨b, rb⟩ := B
+      cases rb with
+      | err => exact ⟨rfl, rfl, fun h => by cases h⟩
+      | ok bb =>
+        cases bb with
+        | false => exact ⟨rfl, rfl, fun h => by cases h⟩
+        | true =>
+          dsimp only at hpb ⊢
+          have hfr : sinkMatched cfg σ buf { b with pos := e } ⟨s, e⟩
+              = ((sinkMatched cfg σ buf b ⟨s, e⟩).1.withPH e b.hasMatched, (sinkMatched cfg σ buf b ⟨s, e⟩).2) :=
+            sinkMatched_ph hbin σ buf ⟨s, e⟩ b e b.hasMatched
+          rw [hfr]
+          simp only [matchedLoop]
+          have hbt : b.hasMatched = true := by rw [hpb, hpa, hG]
+          rw [hbt]
+          generalize sinkMatched cfg σ buf b ⟨s, e⟩ = C
+          obtain ⟨c, rc⟩ := C
+          cases rc with
+          | err => exact ⟨rfl, rfl, fun h => by cases h⟩
+          | ok bc => cases bc <;> exact ⟨rfl, rfl, fun _ => rfl⟩
+
+theorem fastLoop_eq_slow {cfg : Config} (hbin : cfg.binary = .none) (hpt : cfg.passthru = false)
+    (hsoi : cfg.stopOnNonmatch = true → cfg.invertMatch = false) (m : MatcherI) (σ : Script) (buf : Bytes)
+    (hC : FindC cfg m buf) :
+    ∀ (fuel : Nat) (pre : Bytes) (pend ls : List Bytes) (F : Core),
+      ls.length < fuel →
+      buf = pre ++ (pend ++ ls).flatten → GoodLines cfg.lineTerm.asByte (pend ++ ls) →
+      (ls ≠ [] → pre = [] ∨ pre.getLast? = some cfg.lineTerm.asByte) →
+      F.pos = pre.length + pend.flatten.length →
+      (∀ l ∈ pend, succL cfg m l = false) → (cfg.invertMatch = false → pend = []) →
+      (0 < F.afterContextLeft → F.lastLineVisited = pre.length) → F.afterContextLeft ≤ cfg.afterContext →
+      FS σ (fastTail cfg m σ buf (fastLoop cfg m σ buf fuel F))
+        (slowLoop cfg m σ buf (spansFrom pre.length (pend ++ ls)) F) := by
+  intro fuel
+  induction fuel with
+  | zero => intro pre pend ls F hf; omega
+  | succ fuel ih =>
+    intro pre pend ls F hf hbuf hg hpre hpos hpend hinv hJ hacl
+    have hlen : buf.length = pre.length + (pend.flatten.length + ls.flatten.length) := by
+      rw [hbuf]; simp
+    have hgl : GoodLines cfg.lineTerm.asByte ls := goodLines_right hg
+    have hgp : GoodLines cfg.lineTerm.asByte pend := goodLines_left hg
+    have hSC : pend ≠ [] → cfg.stopOnNonmatch = false ∨ F.hasMatched = false := by
+      intro hne
+      left
+      cases hs : cfg.stopOnNonmatch with
+      | false => rfl
+      | true => exact absurd (hinv (hsoi hs)) hne
+    have hdrop : buf.drop F.pos = ls.flatten := by
+      rw [hpos, hbuf, List.flatten_append, ← List.append_assoc,
+        show pre.length + pend.flatten.length = (pre ++ pend.flatten).length by simp, List.drop_left]
+    rw [fastLoop]
+    by_cases hemp : (buf.drop F.pos).isEmpty = true
+    · -- nothing left to search: the trailing after-context
+      rw [if_pos hemp]
+      have hls : ls = [] := by
+        apply Classical.byContradiction
+        intro hne
+        have := goodLines_flatten_ne_nil hgl hne
+        rw [hdrop] at hemp
+        exact this (by simpa using hemp)
+      subst hls
+      simp only [List.append_nil] at hbuf hg hlen ⊢
+      simp only [List.flatten_nil, List.length_nil, Nat.add_zero] at hlen
+      have htake : buf.take (pre.length + pend.flatten.length) = pre ++ pend.flatten := by
+        rw [hbuf, ← List.length_append, List.take_length]
+      obtain ⟨a1, a2, a3⟩ := slow_nonsel hbin hpt m σ buf pend pre F htake hgp hpend hJ hSC
+      rw [← hlen] at a1 a2 a3
+      have hnsA := afterContextByLine_noStop hbin σ buf F buf.length
+      have hphA : (afterContextByLine cfg σ buf F buf.length).1.pos = F.pos ∧
+          (afterContextByLine cfg σ buf F buf.length).1.hasMatched = F.hasMatched :=
+        (afterContextByLine_ph hbin σ buf buf.length).pos F
+      simp only [fastTail]
+      generalize afterContextByLine cfg σ buf F buf.length = A at a1 a2 a3 hnsA hphA ⊢
+      generalize slowLoop cfg m σ buf (spansFrom pre.length pend) F = S at a1 a2 a3 ⊢
+      obtain ⟨a, ra⟩ := A
+      obtain ⟨s, rs⟩ := S
+      dsimp only at a1 a2 a3 hphA
+      subst a1
+      cases rs with
+      | err => exact ⟨rfl, a2.symm, fun _ h => absurd rfl h, fun h => by cases h⟩
+      | ok b =>
+        cases b with
+        | false =>
+          refine ⟨rfl, a2.symm, fun hs _ => ?_, fun h => by cases h⟩
+          obtain ⟨i, hi⟩ := hnsA rfl
+          exact absurd hi (hs i)
+        | true =>
+          obtain ⟨p1, p2⟩ := a3 rfl
+          suffices heq : ({ a with pos := buf.length } : Core) = s from
+            ⟨rfl, by rw [a2]; rfl, fun _ _ => heq, fun _ => heq⟩
+          apply withPH_eq_of (by rw [a2]; rfl)
+          · show buf.length = s.pos
+            rw [p1]
+            split
+            · rw [hpos]; exact hlen
+            · rfl
+          · show a.hasMatched = s.hasMatched
+            rw [p2, hphA.2]
+    · rw [if_neg hemp]
+      have hlsne : ls ≠ [] := by
+        intro h0
+        rw [hdrop, h0] at hemp
+        exact hemp rfl
+      have hpT : AllTerm cfg.lineTerm.asByte pend := goodLines_left_allTerm hg hlsne
+      by_cases hsw : (cfg.stopOnNonmatch && F.hasMatched) = true
+      · -- stop_on_nonmatch after a match: the rest is done by the slow loop anyway
+        rw [if_pos hsw]
+        have hson : cfg.stopOnNonmatch = true := by
+          cases h : cfg.stopOnNonmatch with
+          | false => simp [h] at hsw
+          | true => rfl
+        have hp0 : pend = [] := hinv (hsoi hson)
+        subst hp0
+        simp only [List.flatten_nil, List.length_nil, Nat.add_zero, List.nil_append] at hpos hbuf ⊢
+        simp only [fastTail, matchByLineSlow]
+        rw [hpos, stepLines_good pre ls hgl buf.length (by rw [hbuf, List.take_length]) (by rw [hbuf]; simp)]
+        exact ⟨rfl, rfl, fun _ _ => rfl, fun _ => rfl⟩
+      · rw [if_neg hsw]
+        have hSC2 : cfg.stopOnNonmatch = false ∨ F.hasMatched = false := by
+          cases h1 : cfg.stopOnNonmatch with
+          | false => exact Or.inl rfl
+          | true =>
+            right
+            cases h2 : F.hasMatched with
+            | false => rfl
+            | true => simp [h1, h2] at hsw
+        -- the contract, at the search position
+        have hbnd : pre ++ pend.flatten = [] ∨ (pre ++ pend.flatten).getLast? = some cfg.lineTerm.asByte := by
+          by_cases hp0 : pend = []
+          · subst hp0; simpa using hpre hlsne
+          · right
+            rw [List.getLast?_append, allTerm_flatten_getLast hpT hp0]
+            rfl
+        have ho : F.pos = (pre ++ pend.flatten).length := by rw [hpos]; simp
+        have hfind : findByLineFast cfg m buf F = firstPm cfg m F.pos ls := by
+          rw [ho]
+          exact hC (pre ++ pend.flatten) ls F hgl (by rw [hbuf]; simp) hbnd ho
+        have hbufA : buf = (pre ++ pend.flatten) ++ ls.flatten := by rw [hbuf]; simp
+        by_cases hi : cfg.invertMatch = true
+        · -- inverted: runs of lines the pattern does not match
+          rw [if_pos hi]
+          show FS σ (fastTail cfg m σ buf (fastK cfg m σ buf fuel (matchByLineFastInvert cfg m σ buf F))) _
+          have hsel_of : ∀ x, pmLineL cfg m x = false → succL cfg m x = true := by
+            intro x hx; simp [succL, hx, hi]
+          have hnsel_of : ∀ x, pmLineL cfg m x = true → succL cfg m x = false := by
+            intro x hx; simp [succL, hx, hi]
+          cases hfp : firstPm cfg m F.pos ls with
+          | none =>
+            -- everything left is selected
+            have hall : ∀ x ∈ ls, succL cfg m x = true := fun x hx => hsel_of x (firstPm_none hfp x hx)
+            obtain ⟨l, run, hlr⟩ : ∃ l run, ls = l :: run := by
+              cases ls with
+              | nil => exact absurd rfl hlsne
+              | cons l run => exact ⟨l, run, rfl⟩
+            have hfl : 0 < ls.flatten.length := by
+              have := goodLines_flatten_ne_nil hgl hlsne
+              exact List.length_pos_iff.mpr this
+            have hMI : matchByLineFastInvert cfg m σ buf F
+                = deliverRun cfg σ buf F.pos (spansFrom F.pos ls) (F.withPH buf.length true) := by
+              unfold matchByLineFastInvert
+              rw [hfind, hfp]
+              dsimp only
+              have hne : ¬ (buf.length - F.pos == 0) = true := by
+                simp only [beq_iff_eq]; omega
+              rw [if_neg hne, ho, stepLines_good (pre ++ pend.flatten) ls hgl buf.length
+                (by rw [hbufA, List.take_length]) (by rw [hbufA]; simp only [List.length_append])]
+              rfl
+            rw [hMI, hlr]
+            have htk : buf.take (pre.length + (pend ++ l :: run).flatten.length) = pre ++ (pend ++ l :: run).flatten := by
+              rw [← hlr, hbuf, ← List.length_append, List.take_length]
+            have hdr := deliver_run hbin hpt m σ buf pre pend l run F buf.length F.pos hpos htk hpT hpend
+              (by rw [← hlr]; exact hall) hJ hSC
+            rw [← hlr] at hdr ⊢
+            obtain ⟨d1, d2, d3, d4⟩ := hdr
+            have := fast_cont m σ buf fuel _ _ [] d1 d2 d3 (fun hok => by
+              obtain ⟨e1, e2, e3, e4, e5, e6⟩ := d4 hok
+              have hRY : (deliverRun cfg σ buf F.pos (spansFrom F.pos ls) (F.withPH buf.length true)).1
+                  = (slowLoop cfg m σ buf (spansFrom pre.length (pend ++ ls)) F).1 := by
+                apply withPH_eq_of d2
+                · rw [e1, e5]; omega
+                · rw [e2, e6]
+              have hI := ih buf [] [] (deliverRun cfg σ buf F.pos (spansFrom F.pos ls) (F.withPH buf.length true)).1
+                (by have := List.length_pos_iff.mpr hlsne; simp only [List.length_nil]; omega) (by simp) .nil (fun h => absurd rfl h) (by rw [e1]; simp)
+                (fun x hx => by simp at hx) (fun _ => rfl)
+                (fun _ => by rw [e3, hpos, hlen]; omega) (by rw [e4]; exact Nat.le_refl _)
+              simp only [List.append_nil, spansFrom] at hI
+              rw [← hRY]
+              exact hI)
+            rw [slowK_nil] at this
+            exact this
+          | some sp =>
+            obtain ⟨run, lj, rest, hls, hrun, hlj, hsp⟩ := firstPm_some hfp
+            have hljn : succL cfg m lj = false := hnsel_of lj hlj
+            by_cases hr0 : run = []
+            · -- the very next line is not selected: nothing to deliver, it becomes pending
+              subst hr0
+              simp only [List.nil_append, List.flatten_nil, List.length_nil, Nat.add_zero] at hls hsp
+              have hMI : matchByLineFastInvert cfg m σ buf F = ({ F with pos := F.pos + lj.length }, .ok true) := by
+                unfold matchByLineFastInvert
+                rw [hfind, hfp, hsp]
+                simp
+              rw [hMI]
+              show FS σ (fastTail cfg m σ buf (fastLoop cfg m σ buf fuel { F with pos := F.pos + lj.length })) _
+              have hI := ih pre (pend ++ [lj]) rest { F with pos := F.pos + lj.length }
+                (by have := congrArg List.length hls; simp only [List.length_cons] at this; omega)
+                (by rw [hbuf, hls]; simp) (by rw [hls] at hg; simpa using hg)
+                (fun hne => hpre hlsne)
+                (by show F.pos + lj.length = _; rw [hpos]; simp only [List.flatten_append, List.flatten_cons, List.flatten_nil, List.append_nil, List.length_append]; omega)
+                (fun x hx => by
+                  simp only [List.mem_append, List.mem_singleton] at hx
+                  cases hx with
+                  | inl h => exact hpend x h
+                  | inr h => rw [h]; exact hljn)
+                (fun h => by rw [h] at hi; cases hi) hJ hacl
+              rw [hls]
+              have hne : pend ++ lj :: rest ≠ [] := by simp
+              rw [show (pend ++ [lj]) ++ rest = pend ++ lj :: rest by simp,
+                slowLoop_init_pos' cfg m σ buf pre.length _ hne F _] at hI
+              exact hI
+            · -- a run of selected lines, delivered at once
+              obtain ⟨l, run', hlr⟩ : ∃ l run', run = l :: run' := by
+                cases run with
+                | nil => exact absurd rfl hr0
+                | cons l run' => exact ⟨l, run', rfl⟩
+              have hgr : GoodLines cfg.lineTerm.asByte run := by
+                rw [hls] at hgl; exact goodLines_left hgl
+              have hrT : AllTerm cfg.lineTerm.asByte run := by
+                rw [hls] at hgl; exact goodLines_left_allTerm hgl (by simp)
+              have hrpos : 0 < run.flatten.length := allTerm_flatten_pos hrT hr0
+              have htkR : buf.take ((pre ++ pend.flatten).length + run.flatten.length)
+                  = (pre ++ pend.flatten) ++ run.flatten := by
+                rw [hbufA, hls]
+                simp only [List.flatten_append, List.flatten_cons]
+                rw [← List.append_assoc, ← List.length_append, List.take_left']
+                rfl
+              have hMI : matchByLineFastInvert cfg m σ buf F
+                  = deliverRun cfg σ buf F.pos (spansFrom F.pos run)
+                      (F.withPH (F.pos + run.flatten.length + lj.length) true) := by
+                unfold matchByLineFastInvert
+                rw [hfind, hfp, hsp]
+                dsimp only
+                have hne : ¬ (F.pos + run.flatten.length - F.pos == 0) = true := by simp only [beq_iff_eq]; omega
+                rw [if_neg hne, ho, stepLines_good (pre ++ pend.flatten) run hgr _ htkR rfl]
+                rfl
+              rw [hMI]
+              have htk : buf.take (pre.length + (pend ++ l :: run').flatten.length) = pre ++ (pend ++ l :: run').flatten := by
+                rw [← hlr]
+                have := htkR
+                simp only [List.length_append, List.flatten_append] at this ⊢
+                rw [Nat.add_assoc] at this
+                rw [this, List.append_assoc]
+              have hdr := deliver_run hbin hpt m σ buf pre pend l run' F (F.pos + run.flatten.length + lj.length) F.pos
+                hpos htk hpT hpend (by rw [← hlr]; exact fun x hx => hsel_of x (hrun x hx)) hJ hSC
+              rw [← hlr] at hdr
+              obtain ⟨d1, d2, d3, d4⟩ := hdr
+              -- the slow loop, split after the run
+              have hY : slowLoop cfg m σ buf (spansFrom pre.length (pend ++ ls)) F
+                  = slowK cfg m σ buf (spansFrom (pre.length + (pend ++ run).flatten.length) (lj :: rest))
+                      (slowLoop cfg m σ buf (spansFrom pre.length (pend ++ run)) F) := by
+                rw [hls, ← List.append_assoc, spansFrom_append, slowLoop_append']
+              rw [hY]
+              apply fast_cont m σ buf fuel _ _ _ d1 d2 d3
+              intro hok
+              obtain ⟨e1, e2, e3, e4, e5, e6⟩ := d4 hok
+              have hrl : rest.length < fuel := by
+                have := congrArg List.length hls
+                simp only [List.length_append, List.length_cons] at this
+                omega
+              have hI := ih (pre ++ (pend ++ run).flatten) [lj] rest
+                (deliverRun cfg σ buf F.pos (spansFrom F.pos run) (F.withPH (F.pos + run.flatten.length + lj.length) true)).1
+                hrl
+                (by rw [hbuf, hls]; simp)
+                (by rw [hls, ← List.append_assoc] at hg; exact goodLines_right hg)
+                (fun _ => Or.inr (by
+                  rw [List.getLast?_append, allTerm_flatten_getLast (allTerm_append hpT hrT) (by simp [hr0])]
+                  rfl))
+                (by rw [e1, hpos]; simp only [List.length_append, List.flatten_append, List.flatten_cons, List.flatten_nil, List.append_nil]; omega)
+                (fun x hx => by simp at hx; rw [hx]; exact hljn)
+                (fun h => by rw [h] at hi; cases hi)
+                (fun _ => by rw [e3, hpos]; simp only [List.length_append, List.flatten_append, List.flatten_cons]; omega)
+                (by rw [e4]; exact Nat.le_refl _)
+              -- the slow state differs from the fast one in the position only
+              have hRY : (deliverRun cfg σ buf F.pos (spansFrom F.pos run)
+                    (F.withPH (F.pos + run.flatten.length + lj.length) true)).1
+                  = { (slowLoop cfg m σ buf (spansFrom pre.length (pend ++ run)) F).1 with
+                      pos := F.pos + run.flatten.length + lj.length } := by
+                have := withPH_inj d2
+                rw [this, e1, e2]
+                show _ = Core.withPH _ _ _
+                rw [e6]
+              have hsl : slowLoop cfg m σ buf (spansFrom (pre ++ (pend ++ run).flatten).length ([lj] ++ rest))
+                    (deliverRun cfg σ buf F.pos (spansFrom F.pos run)
+                      (F.withPH (F.pos + run.flatten.length + lj.length) true)).1
+                  = slowLoop cfg m σ buf (spansFrom (pre.length + (pend ++ run).flatten.length) (lj :: rest))
+                      (slowLoop cfg m σ buf (spansFrom pre.length (pend ++ run)) F).1 := by
+                rw [hRY, List.length_append]
+                exact slowLoop_init_pos' cfg m σ buf _ _ (by simp) _ _
+              rw [hsl] at hI
+              exact hI
+        · -- not inverted
+          rw [if_neg hi]
+          have hi0 : cfg.invertMatch = false := by simpa using hi
+          have hp0 : pend = [] := hinv hi0
+          subst hp0
+          simp only [List.flatten_nil, List.length_nil, Nat.add_zero, List.nil_append, List.append_nil] at hpos hbuf ho hbufA hfind ⊢
+          have hsel_of : ∀ x, pmLineL cfg m x = true → succL cfg m x = true := by
+            intro x hx; simp [succL, hx, hi0]
+          have hnsel_of : ∀ x, pmLineL cfg m x = false → succL cfg m x = false := by
+            intro x hx; simp [succL, hx, hi0]
+          rw [hfind]
+          cases hfp : firstPm cfg m F.pos ls with
+          | none =>
+            exact fast_tail_nonsel hbin hpt m σ buf pre ls F hbuf hgl
+              (fun x hx => hnsel_of x (firstPm_none hfp x hx)) hJ (fun _ => hSC2) (fun h => absurd h hlsne)
+          | some sp =>
+            obtain ⟨nm, lj, rest, hls, hnm, hlj, hsp⟩ := firstPm_some hfp
+            dsimp only
+            have hG : ({ F with hasMatched := true } : Core) = F.withPH F.pos true := rfl
+            rw [hG, hsp]
+            dsimp only
+            have hsuccj : succL cfg m lj = true := hsel_of lj hlj
+            have hnmT : AllTerm cfg.lineTerm.asByte nm := by
+              rw [hls] at hgl; exact goodLines_left_allTerm hgl (by simp)
+            -- the three-way matches of the loop body, as `fastK` of one delivery
+            have hshape : ∀ cx : Core × Res Bool, (match cx with
+                | (st, .err) => (st, Res.err)
+                | (st, .ok false) => (st, .ok (some FastMatchResult.stop))
+                | (st, .ok true) =>
+                  match sinkMatched cfg σ buf { st with pos := F.pos + nm.flatten.length + lj.length }
+                      ⟨F.pos + nm.flatten.length, F.pos + nm.flatten.length + lj.length⟩ with
+                  | (st, .err) => (st, .err)
+                  | (st, .ok false) => (st, .ok (some FastMatchResult.stop))
+                  | (st, .ok true) => fastLoop cfg m σ buf fuel st)
+                = fastK cfg m σ buf fuel (match cx with
+                  | (st, .ok true) => sinkMatched cfg σ buf { st with pos := F.pos + nm.flatten.length + lj.length }
+                      ⟨F.pos + nm.flatten.length, F.pos + nm.flatten.length + lj.length⟩
+                  | (st, r) => (st, r)) := by
+              intro cx
+              obtain ⟨c, rc⟩ := cx
+              cases rc with
+              | err => rfl
+              | ok b =>
+                cases b with
+                | false => rfl
+                | true =>
+                  dsimp only
+                  generalize sinkMatched cfg σ buf { c with pos := F.pos + nm.flatten.length + lj.length }
+                    ⟨F.pos + nm.flatten.length, F.pos + nm.flatten.length + lj.length⟩ = y
+                  obtain ⟨y1, ry⟩ := y
+                  cases ry with
+                  | err => rfl
+                  | ok b2 => cases b2 <;> rfl
+            refine Eq.mpr (congrArg (fun z => FS σ (fastTail cfg m σ buf z)
+              (slowLoop cfg m σ buf (spansFrom pre.length ls) F)) (hshape _)) ?_
+            have h0 : cfg.maxContext = 0 → (F.withPH F.pos true).afterContextLeft = 0 := by
+              intro hm
+              show F.afterContextLeft = 0
+              unfold Config.maxContext at hm
+              omega
+            obtain ⟨n1, n2, n3⟩ := noninv_step hbin σ buf (F.withPH F.pos true) (F.pos + nm.flatten.length)
+              (F.pos + nm.flatten.length + lj.length) rfl h0
+            have hbufB : buf = (pre ++ (nm ++ [lj]).flatten) ++ rest.flatten := by
+              rw [hbuf, hls]; simp
+            have htk : buf.take (pre.length + (nm ++ [lj]).flatten.length) = pre ++ (nm ++ [lj]).flatten := by
+              rw [hbufB]
+              exact List.take_left' (by simp only [List.length_append])
+            have hdr := deliver_run hbin hpt m σ buf pre nm lj [] F (F.pos + nm.flatten.length + lj.length)
+              (F.pos + nm.flatten.length) (by rw [hpos]) htk hnmT (fun x hx => hnsel_of x (hnm x hx))
+              (fun x hx => by simp at hx; rw [hx]; exact hsuccj) hJ (fun _ => hSC2)
+            have hsp1 : spansFrom (F.pos + nm.flatten.length) [lj]
+                = [⟨F.pos + nm.flatten.length, F.pos + nm.flatten.length + lj.length⟩] := by simp [spansFrom]
+            rw [hsp1] at hdr
+            obtain ⟨d1, d2, d3, d4⟩ := hdr
+            have hY : slowLoop cfg m σ buf (spansFrom pre.length ls) F
+                = slowK cfg m σ buf (spansFrom (pre.length + (nm ++ [lj]).flatten.length) rest)
+                    (slowLoop cfg m σ buf (spansFrom pre.length (nm ++ [lj])) F) := by
+              rw [hls, show nm ++ lj :: rest = (nm ++ [lj]) ++ rest by simp, spansFrom_append, slowLoop_append']
+            rw [hY]
+            generalize hCdef : (match (if cfg.maxContext > 0 then
+                  (match afterContextByLine cfg σ buf (F.withPH F.pos true) (F.pos + nm.flatten.length) with
+                    | (st, .ok true) => beforeContextByLine cfg σ buf st (F.pos + nm.flatten.length)
+                    | (st, r) => (st, r))
+                else (F.withPH F.pos true, .ok true)) with
+              | (st, .ok true) => sinkMatched cfg σ buf { st with pos := F.pos + nm.flatten.length + lj.length }
+                  ⟨F.pos + nm.flatten.length, F.pos + nm.flatten.length + lj.length⟩
+              | (st, r) => (st, r)) = C
+            have m1 : C.2 = (deliverRun cfg σ buf (F.pos + nm.flatten.length)
+                [⟨F.pos + nm.flatten.length, F.pos + nm.flatten.length + lj.length⟩]
+                (F.withPH (F.pos + nm.flatten.length + lj.length) true)).2 := by rw [← hCdef]; exact n1
+            have m2 : C.1.withPH 0 false = (deliverRun cfg σ buf (F.pos + nm.flatten.length)
+                [⟨F.pos + nm.flatten.length, F.pos + nm.flatten.length + lj.length⟩]
+                (F.withPH (F.pos + nm.flatten.length + lj.length) true)).1.withPH 0 false := by rw [← hCdef]; exact n2
+            have m3 : C.2 = .ok true → C.1 = (deliverRun cfg σ buf (F.pos + nm.flatten.length)
+                [⟨F.pos + nm.flatten.length, F.pos + nm.flatten.length + lj.length⟩]
+                (F.withPH (F.pos + nm.flatten.length + lj.length) true)).1 := by rw [← hCdef]; exact n3
+            apply fast_cont m σ buf fuel C _ _ (m1.trans d1) (m2.trans d2)
+              (fun hst => d3 (m1.symm.trans hst))
+            intro hok
+            have hokD := m1.symm.trans hok
+            obtain ⟨e1, e2, e3, e4, e5, e6⟩ := d4 hokD
+            have hCD := m3 hok
+            have hDY := withPH_eq_of d2 (by rw [e1, e5]; simp) (by rw [e2, e6])
+            have hrl : rest.length < fuel := by
+              have := congrArg List.length hls
+              simp only [List.length_append, List.length_cons] at this
+              omega
+            have hljT : rest ≠ [] → Term cfg.lineTerm.asByte lj := fun hr =>
+              goodLines_head_term (by rw [hls] at hgl; exact goodLines_right hgl) hr
+            have hI := ih (pre ++ (nm ++ [lj]).flatten) [] rest C.1 hrl
+              (by rw [hbufB]; simp)
+              (by rw [hls, show nm ++ lj :: rest = (nm ++ [lj]) ++ rest by simp] at hgl; simpa using goodLines_right hgl)
+              (fun hr => Or.inr (by
+                rw [List.getLast?_append, allTerm_flatten_getLast
+                  (allTerm_append hnmT (fun x hx => by simp at hx; rw [hx]; exact hljT hr)) (by simp)]
+                rfl))
+              (by rw [hCD, e1, hpos]; simp only [List.length_append, List.flatten_append, List.flatten_cons, List.flatten_nil, List.append_nil, List.length_nil, Nat.add_zero]; omega)
+              (fun x hx => by simp at hx) (fun _ => rfl)
+              (fun _ => by rw [hCD, e3, hpos]; simp only [List.length_append, List.flatten_append, List.flatten_cons, List.flatten_nil, List.append_nil]; omega)
+              (by rw [hCD, e4]; exact Nat.le_refl _)
+            simp only [List.nil_append, List.length_append] at hI
+            rw [hCD, hDY] at hI ⊢
+            exact hI
+
+end RgVerif.Searcher
